@@ -344,6 +344,44 @@ theorem scan_pending_transparent (c : CfgS) (O : Oracle σ) (pend : σ → Wire 
     (h : PendingClean O pend) (e : σ) : scanS c (linkOf (withPending O pend)) e = scanS c (linkOf O) e := by
   rw [linkOf_withPending O pend h0 h]
 
+/-- a slow answer below the 20 s of the pending loop is an ordinary pending answer -/
+theorem withSlowPending_eq (O : Oracle σ) (pend gap : σ → Wire → Nat) (hg : ∀ s w, gap s w < PENDING_GIVEUP_MS) :
+    withSlowPending O pend gap = withPending O pend := by
+  unfold withSlowPending withPending
+  congr 1
+  funext s i w
+  have := hg s w
+  rw [if_neg (by omega)]
+
+/-- **(c2) Session changes that take their time.**  An ECU that announces its answers with ResponsePending frames and
+    sends the positive reply up to (not including) 20 s after the last of them - whatever the delay, per state and per
+    request - gets the same scan (same requests, same report, same final state) as the ECU that answers at once.  With
+    `scan_exact_graphlike`: the scan of such a graph ECU reports exactly the reachable set. -/
+theorem scan_slow_pending_transparent (c : CfgS) (O : Oracle σ) (pend gap : σ → Wire → Nat) (h0 : NoPending O)
+    (h : PendingClean O pend) (hg : ∀ s w, gap s w < PENDING_GIVEUP_MS) (e : σ) :
+    scanS c (linkOf (withSlowPending O pend gap)) e = scanS c (linkOf O) e := by
+  rw [withSlowPending_eq O pend gap hg, linkOf_withPending O pend h0 h]
+
+/-- the bound is sharp: with 20 s of silence after the ResponsePending the client sees an unanswered request -/
+theorem slow_pending_lost_at_giveup (O : Oracle σ) (pend gap : σ → Wire → Nat) (s : σ) (i : Nat) (w : Wire)
+    (hp : pend s w ≠ 0) (hf : (O.step s i w).2.fin = .pos) (hg : PENDING_GIVEUP_MS ≤ gap s w) :
+    ((linkOf (withSlowPending O pend gap)).send s i w).2 = { ans := .silent, retry := true, slow := true } := by
+  simp only [linkOf, withSlowPending]
+  rw [if_pos ⟨hp, hf, hg⟩]
+  simp only [outOf]
+  rw [if_neg hp]
+
+/-- non-vacuity: an ECU that enters every session, with one ResponsePending frame and 19.1 s before each positive reply -/
+example : ∃ (O : Oracle Nat) (pend gap : Nat → Wire → Nat), NoPending O ∧ PendingClean O pend ∧
+    (∀ s w, gap s w < PENDING_GIVEUP_MS) ∧ gap 1 (.dsc 2) = 19100 ∧ pend 1 (.dsc 2) = 1 :=
+  ⟨{ step := fun s _ w => match w with
+      | .dsc u => (u, { fin := .pos })
+      | _ => (s, { fin := .pos }), sessionOf := id },
+    fun _ _ => 1, fun _ _ => 19100,
+    by intro s i w; cases w <;> rfl,
+    by intro s i w _; cases w <;> exact ⟨by simp, by simp⟩,
+    by intro s w; show 19100 < PENDING_GIVEUP_MS; decide, rfl, rfl⟩
+
 /-- **(2) Wire alphabet, for ANY ECU.**  Whatever the ECU does, the scan sends nothing but: `10 s` probes to
     non-skipped sessions 1..0x7f; stack-recovery `10 s` to the default session or a non-skipped session; `11 level` and
     pings only with `--reset level`; hook requests only with `--with-hooks`, and only those of the ECU class. -/
